@@ -107,23 +107,7 @@ def run(ctx):
     if vb is None:
         ctx.missing("R-FLOW", "SignedMessage::verify", SM + "verify")
     else:
-        ok = False
-        detail = None
-        for c in vb.calls():
-            if c.name == "for_each":
-                a = K.arg_terms(c)
-                detail = [render(x) for x in a]
-                if render(a[0]) == "self.content" and a[1][0] == "closure":
-                    cb = f.body(a[1][1])
-                    caps = [render(x) for x in a[1][2]]
-                    ups = [c2 for c2 in cb.calls() if c2.res == "crypto::digest::Context::update"] if cb else []
-                    if len(ups) == 1:
-                        ua = K.arg_renders(ups[0])
-                        ok = ua[0].startswith("^context") and ua[1] == "x" and \
-                            caps == ["context⟵DigestAlgorithm::start(self.digest_algorithm)"]
-        ctx.ob("R-FLOW", "SignedMessage::verify:digest-input", ok,
-               "the digest compared with message_digest is computed over self.content under self.digest_algorithm",
-               where=vb.loc, detail=detail)
+        K.check_digest_input(ctx, f, vb, "SignedMessage::verify:digest-input")
 
     # ---- C10.b IdCert::validate_ee_at ----------------------------------------
     ee = IDC + "validate_ee_at"
@@ -134,6 +118,16 @@ def run(ctx):
         ctx.saw_fn(ee)
         ski = eq_matcher(r"^self\.subject_key_id$", r"^PublicKey::key_identifier\(self\.subject_public_key_info\)$")
         aki = eq_matcher(r"^self\.authority_key_id↓Some\.0$", r"^PublicKey::key_identifier\(issuer_key\)$")
+        ca_true = eq_matcher(r"^self\.basic_ca$", r"^option::Option::Some\{0: 1\}$")
+
+        def other_edge(bd, bb, edges):
+            """The edge of the bool switch at bb on which the matched literal is FALSE."""
+            if not edges:
+                return None
+            e = K.switch_bool_edges(bd, bb)
+            if e is None:
+                return None
+            return [(bb, e[0] if edges[0][1] == e[1] else e[1])]
         items = [
             ("R-GRD", "ski==hash(key)", mp_guard(f, "SKI guard", lambda bd, s, bb: guard_edges(bd, s, bb, ski))),
             ("R-CHK", "Validity::verify_at(self.validity, now)",
@@ -143,7 +137,9 @@ def run(ctx):
                                              lambda bd, s, bb: variant_edge(bd, s, bb, r"^self\.authority_key_id$", 0)))),
             ("R-GRD", "basic_ca absent or false",
              mp_guard(f, "not a CA", any_of(lambda bd, s, bb: variant_edge(bd, s, bb, r"^self\.basic_ca$", 0),
-                                            lambda bd, s, bb: bool_place_edge(bd, s, bb, r"^self\.basic_ca↓Some\.0$", False)))),
+                                            lambda bd, s, bb: bool_place_edge(bd, s, bb, r"^self\.basic_ca↓Some\.0$", False),
+                                            lambda bd, s, bb: bool_place_edge(bd, s, bb, r"^Option::unwrap_or(_default)?\(self\.basic_ca(, 0)?\)$", False),
+                                            lambda bd, s, bb: other_edge(bd, bb, guard_edges(bd, s, bb, ca_true))))),
             ("R-CHK", "verify_sig", MustPass(f, K.sink_verify_sig, name="verify_sig")),
         ]
         for ent in (ee, IDC + "validate_ee"):
